@@ -17,6 +17,8 @@ DEFAULT_MACROS = [("log", "info"), ("log", "warn"), ("log", "error")]
 
 def render_cfg(cfg):
     out = ["---"]
+    for k in cfg.get("extra_top", []):      # keys Breadlog does not know: it must ignore them
+        out.append(k)
     out.append("source_dir: %s" % cfg.get("source_dir", "./src"))
     if cfg.get("use_cache") is not None:
         out.append("use_cache: %s" % ("true" if cfg["use_cache"] else "false"))
@@ -27,6 +29,8 @@ def render_cfg(cfg):
     for mod, name in cfg.get("macros", DEFAULT_MACROS):
         out.append("    - module: %s" % mod)
         out.append("      name: %s" % name)
+    for k in cfg.get("extra_rust", []):
+        out.append("  " + k)
     if cfg.get("extensions") is not None:
         if cfg["extensions"]:
             out.append("  extensions:")
@@ -35,6 +39,19 @@ def render_cfg(cfg):
         else:
             out.append("  extensions: []")
     return ("\n".join(out) + "\n").encode()
+
+
+EXTRA_KEYS = ["check: false", "check: true", "check_mode: false", "dry_run: false", "dry_run: true", "edit: true", "write: false",
+              "readonly: true", "mode: edit", "mode: check", "verbose: true", "version: 2", "use_lock: false", "cache: false",
+              "exclude: [target]", "follow_symlinks: true", "tmp_dir: /nonexistent", "language: rust"]
+
+
+def add_extra_keys(rng, cfg, p=0.3):
+    if rng.random() < p:
+        cfg["extra_top"] = rng.sample(EXTRA_KEYS, rng.randrange(1, 4))
+    if rng.random() < p / 2:
+        cfg["extra_rust"] = rng.sample(["check: false", "structured_logging: true", "macros: []", "edition: 2021"], rng.randrange(1, 3))
+    return cfg
 
 
 def cfg_structured(cfg):
@@ -52,9 +69,10 @@ WORDS = ["starting", "worker", "done", "request", "failed to open", "retry", "ca
          "connected", "value is", "état", "naïve café", "日本語", "ok", "timeout after"]
 
 # shapes: name -> (structured_ok, unstructured_ok)
-UNSTRUCT_SHAPES = ["bare", "qual", "fmt", "target", "kv", "multi", "qual_fmt_multi", "esc", "kv_short", "kv_mixed", "target_kv"]
+UNSTRUCT_SHAPES = ["bare", "qual", "fmt", "target", "kv", "multi", "qual_fmt_multi", "esc", "kv_short", "kv_mixed", "target_kv",
+                   "bang_space", "bang_nl", "bang_comment"]
 STRUCT_SHAPES = ["bare", "qual", "fmt", "kv", "kv2", "multi", "esc", "kv_short", "kv_short2", "kv_mixed", "kv_mixed2", "target",
-                 "target_kv", "target_multi"]
+                 "target_kv", "target_multi", "bang_space", "bang_nl", "bang_comment"]
 
 
 def render_stmt(shape, marker, macro, rid, structured, words, indent="    ", ref_last=False, module="log", rid_text=None):
@@ -98,10 +116,12 @@ def render_stmt(shape, marker, macro, rid, structured, words, indent="    ", ref
         if rid is not None:
             msg = "[ref: %s] %s" % (ridt, msg)
     kvpart = (kvs + "; ") if kvs else ""
+    # something between the bang and the opening bracket (rustc and the grammar both accept it)
+    bang = {"bang_space": "! ", "bang_nl": "!\n" + indent + "    ", "bang_comment": "! /* lvl */ "}.get(shape, "!")
     if shape in ("multi", "qual_fmt_multi", "target_multi"):
-        body = "%s%s!(\n%s    %s%s\"%s\"%s\n%s);\n" % (indent, name, indent, pre, kvpart, msg, args_after, indent)
+        body = "%s%s%s(\n%s    %s%s\"%s\"%s\n%s);\n" % (indent, name, bang, indent, pre, kvpart, msg, args_after, indent)
     else:
-        body = "%s%s!(%s%s\"%s\"%s);\n" % (indent, name, pre, kvpart, msg, args_after)
+        body = "%s%s%s(%s%s\"%s\"%s);\n" % (indent, name, bang, pre, kvpart, msg, args_after)
     return body
 
 
@@ -319,7 +339,7 @@ def gen_ids(rng, n, p_have=0.4, lo=1, hi=60, special=None):
 
 def gen_world_model(rng, structured=None, use_cache="rand", nfiles=None, sizes=None, p_have=0.4, id_hi=60,
                     lock="rand", shapes=None, max_stmts=4, min_missing=1, special_ids=None, crlf_p=0.0, unicode_p=0.0,
-                    decoy_p=0.25, custom_macros_p=0.15, layout_p=0.1):
+                    decoy_p=0.25, custom_macros_p=0.15, layout_p=0.1, heads_p=0.12, many=None, extra_keys_p=0.3):
     """A project with generated in-scope source files under proj/src (nested sometimes)."""
     macros = None
     if rng.random() < custom_macros_p:
@@ -331,6 +351,7 @@ def gen_world_model(rng, structured=None, use_cache="rand", nfiles=None, sizes=N
     cfg = {"source_dir": rng.choice(["./src", "src"]), "structured": structured if (structured or rng.random() < 0.5) else None}
     if macros:
         cfg["macros"] = [list(m) for m in macros]
+    add_extra_keys(rng, cfg, extra_keys_p)
     if use_cache == "rand":
         cfg["use_cache"] = rng.choice([True, None, None, False])
     else:
@@ -363,6 +384,30 @@ def gen_world_model(rng, structured=None, use_cache="rand", nfiles=None, sizes=N
         sc = rng.choice(sizes or ["tiny", "tiny", "tiny", "k8", "k64"])
         files["proj/src/" + names[fi]] = g.source_file(structured, ns, sc, ids, shapes, crlf=rng.random() < crlf_p,
                                                        unicode_p=unicode_p, decoy_p=decoy_p, layout_p=layout_p)
+    if many:
+        # one file with a great many statements on top (counts around powers of two)
+        mod0, mac0 = (macros or DEFAULT_MACROS)[0]
+        lines = ["fn many(count: u32, state: &str) {\n"]
+        segs = [["pad", lines[0]]]
+        for _j in range(many):
+            g.n += 1
+            mk = "mk%05dq" % g.n
+            segs.append(["stmt", mk, "    %s!(%s\"%s bulk\");\n" % (mac0, "" , mk)])
+        segs.append(["pad", "}\n"])
+        files["proj/src/bulk.rs"] = segs
+        missing += many
+    for p in sorted(files):
+        if heads_p and rng.random() < heads_p:
+            first = files[p][0]
+            r = rng.random()
+            if first[0] != "pad":
+                continue
+            if r < 0.5:
+                first[-1] = "\ufeff" + first[-1]                       # byte-order mark
+            elif r < 0.75:
+                first[-1] = "#!/usr/bin/env run-cargo-script\n" + first[-1]
+            else:
+                first[-1] = "\n\n\r\n" + first[-1]
     if missing < min_missing:
         # make sure there is work to do
         p = sorted(files)[0]
